@@ -55,6 +55,7 @@ def gen_cases(tier, seed):
                      "nested-no_grad", "backward-inside-no_grad",
                      "matmul-chain", "matmul-chain-no_grad-parameter", "dropout-noise", "frozen-net-rollout",
                      "concat-rolling-window", "stack-rolling-window", "linear-nobias-plain", "linear-nobias-frozen-no_grad",
+                     "no_grad-object-made-earlier",
                      "catalogue-plain", "catalogue-no_grad") + (("catalogue-plain-each-alone", "catalogue-no_grad-each-alone") if n == 10000 else ()):
             cases.append({"kind": "untracked", "n": n, "mode": mode, "seed": int(rng.integers(2 ** 31))})
     cases.append({"kind": "weakref", "seed": 0})
@@ -324,6 +325,7 @@ def run_case(ns, mon, c):
                          "linear-nobias-plain", "linear-nobias-frozen-no_grad"):
             w = T(np.full((1, 8), 0.125))
         samples = []
+        early_ng = [sg.no_grad() for _ in range(c["n"] + 8)] if c["mode"] == "no_grad-object-made-earlier" else []
         mem_samples = []
         catalogue = None
         if c["mode"].startswith("catalogue"):
@@ -378,6 +380,11 @@ def run_case(ns, mon, c):
                 return drop(w)                              # noise injection on a tensor that does not require grad
             if c["mode"] == "frozen-net-rollout":
                 return net(w)                               # roll-out of a frozen model that contains a Dropout layer
+            if c["mode"] == "no_grad-object-made-earlier":
+                k4 = body.k4 = getattr(body, "k4", -1) + 1
+                with early_ng[k4 % len(early_ng)]:          # context objects created long ago (while tracking was on; each entered once), used inside the loop's no_grad block
+                    stat = (w * w).sum()
+                return w * 0.999 + par * (0.001 + 0.0 * float(stat.data))
             if c["mode"] == "nested-no_grad":
                 with sg.no_grad():                          # a helper that wraps itself in no_grad, called from an evaluation loop
                     stat = (w * w).sum()
@@ -398,7 +405,7 @@ def run_case(ns, mon, c):
                     w = body(w)
                     if (i + 1) % step == 0:
                         samples.append(mon.live_count() - base)
-        elif c["mode"] in ("no_grad", "no_grad-with-parameter", "no_grad-linear", "nested-no_grad", "backward-inside-no_grad", "matmul-chain-no_grad-parameter", "linear-nobias-frozen-no_grad"):
+        elif c["mode"] in ("no_grad", "no_grad-with-parameter", "no_grad-linear", "nested-no_grad", "no_grad-object-made-earlier", "backward-inside-no_grad", "matmul-chain-no_grad-parameter", "linear-nobias-frozen-no_grad"):
             with sg.no_grad():
                 for i in range(n):
                     w = body(w)
